@@ -2,3 +2,6 @@ import RaftProps.C11
 import RaftProps.C12
 import RaftProps.C18
 import RaftProps.C14
+import RaftProps.C19
+import RaftProps.C02
+import RaftProps.C06
